@@ -84,6 +84,7 @@ class Contract:
     ghost_at_exit: dict = field(default_factory=dict)  # ghost path -> expression over the EXIT state (may mention cand_locals)
     binds_fields: dict = field(default_factory=dict)   # for __init__ contracts: object-typed field -> parameter it aliases
     interrupt_exit: list = field(default_factory=list)  # C14: clauses at an exit reached after an interrupt (may mention cand_locals)
+    pylists: bool = False                     # list literals are python-level lists (unrolled iteration)
     cand_locals: tuple = ()                   # locals that candidates may mention besides __done__/__ret__
     ghost_yield: dict = field(default_factory=dict)
     rely_ensures: list = field(default_factory=list)
@@ -118,6 +119,7 @@ class Registry:
         self.identity_sorts: tuple = ('Inst',)
         self.file_sorts: tuple = ()
         self.global_objects: dict = {}            # module-level singleton objects: name -> class name
+        self.const_exprs: dict = {}               # dotted module constants (os.path.sep) -> spec expression
         self.view_names: set = set()
         self.const_names: dict = {}               # module-level names used as opaque values: name -> sort
 
